@@ -19,7 +19,7 @@ from bcsim import engine, node, specs
 
 PROP = "C08"
 TIERS = {
-    "quick": dict(runs=480, wall=900, hashseeds=[0], node_seeds=[0, 1, 77, 4242], fresh_p=0.0),
+    "quick": dict(runs=640, wall=900, hashseeds=[0], node_seeds=[0, 1, 77, 4242], fresh_p=0.0),
     "thorough": dict(runs=12000, wall=6 * 3600, hashseeds=[0], node_seeds=[0, 1, 2, 3, 5, 7, 11, 13, 77, 101, 1234, 4242, 9999, 31337, 65537, 99991], fresh_p=0.01),
 }
 QUAL_VALS = specs.QUAL_VALS_PLAIN + ["café", "α-helix", "a;b", "k=v", "50%", "tab\there", "x,y", "  lead", "UPPER", "1e3", "True",
